@@ -13,7 +13,7 @@ def main(tier, which='C07'):
     hl, = V.build(['h_layout'])
     d = V.rundir(which.lower())
     rnd = random.Random(V.seed() + (0 if which == 'C07' else 77))
-    n = 300 if quick else 8000
+    n = (1000 if which == 'C07' else 1500) if quick else 8000
     if which == 'C07':
         cases = [LC.gen_case(rnd) for _ in range(n)] + [LC.gen_crowded(rnd) for _ in range(4 * n)] + [LC.gen_redundant(rnd) for _ in range(4 * n)]
     else:
